@@ -1216,6 +1216,8 @@ class Suspender(Interrupter):
             return aux
 
         if not aux.done: #not done so active
+            if aux.main is not self._act.frame:  # active as aux of another frame so not ours to run
+                return None
             aux.segue()
             aux.recur()
 
